@@ -73,7 +73,7 @@ Fixpoint shortDigit_loop2 (fuel : nat) (fuel0 : nat)   (pad : bytes) (i : Z) (kx
   end.
 
 Definition shortDigit (fuel0 : nat) (otp : N) (digits : Z) : res bytes :=
-  let pad := (repeat 0%N 8) in
+  let pad : bytes := (repeat 0%N 8) in
   let i := (wrap_int64 (Z.sub digits 1%Z)) in
   shortDigit_loop1 fuel0 fuel0 pad otp i (fun (pad : bytes) (otp : N) (i : Z) =>
   shortDigit_loop2 fuel0 fuel0 pad i (fun (pad : bytes) (i : Z) =>
@@ -182,7 +182,7 @@ Definition GenerateHOTP (fuel0 : nat) (junk_rfc4226BufPool : bytes) (secret : by
 
 Fixpoint ValidateHOTP_loop1 (fuel : nat) (fuel0 : nat) (junk_rfc4226BufPool : bytes) (skew : Z) (counter : N) (code : bytes) (secretBuf : bytes) (param_ : (option param)) (i : Z) (kx : Z -> res (bool * (option err))) {struct fuel} : res (bool * (option err)) :=
   match fuel with O => OutOfFuel | S fuel =>
-  if (Z.leb i skew) then (let c := 0%N in
+  if (Z.leb i skew) then (let c : N := 0%N in
   let kj2 := fun (c : N) =>
   do t4 <- deref param_;
   do t5 <- deref param_;
@@ -471,7 +471,7 @@ Definition parseCryptoFunction (raw : bytes) (crypto : bytes) : res (suite_cfg *
   let hashPart := t2 in
   do t3 <- idxS parts 1%Z;
   let digPart := t3 in
-  let cfg := (mkSuite [] 0 0 0 false false false false false 0 0) in
+  let cfg : suite_cfg := (mkSuite [] 0 0 0 false false false false false 0 0) in
   let t4 := (to_upper_u hashPart) in
   let kj1 := fun (cfg : suite_cfg) =>
   do t5 <- Val (atoi_go digPart);
